@@ -40,9 +40,12 @@ namespace occa {
         return false;
       }
 
+      // Always publish the translation that was just made: a file left behind by a
+      // build that died before it recorded its dependencies (build.json) may have been
+      // translated from older contents of the included headers
       io::stageFile(
         outputFile,
-        true,
+        false,
         [&](const std::string &tempFilename) -> bool {
           parser.writeToFile(tempFilename);
           return true;
